@@ -988,4 +988,62 @@ theorem whoisOne_users (cn : Conn) (user : User) (nick : Str) :
         exact whoisOne_users ..
 end usersEq4
 
+set_option linter.unusedSimpArgs false
+section modeChan
+variable (cfg : Cfg) (c : Nat) (x : Ctx)
+
+theorem ite_acc_users (p : Prop) [Decidable p] (a b : ModeAcc) :
+    (if p then a else b).x.w.users = if p then a.x.w.users else b.x.w.users := by
+  split <;> rfl
+
+theorem ite_eq_of {α : Sort _} (p : Prop) [Decidable p] (a b c : α) (h1 : p → a = c) (h2 : ¬p → b = c) :
+    (if p then a else b) = c := by
+  split
+  · exact h1 ‹_›
+  · exact h2 ‹_›
+
+theorem modeChar_users (cn : Conn) (target : Str) (chum : ChanUserModes) (a : ModeAcc) (ch : Char) :
+    (modeChar cfg cn target chum a ch).x.w.users = a.x.w.users := by
+  unfold modeChar
+  extract_lets client nick err482 preChecked a1 ifHalfOp sign xb xe xi m src m' a2
+  have ha1 : a1.x.w.users = a.x.w.users := by
+    simp only [a1, err482, ite_acc_users, Ctx.reply_w, ite_self]
+  have hxb : xb.w.users = a.x.w.users := by simp only [xb, foldl_reply_users, ha1]
+  have hxe : xe.w.users = a.x.w.users := by simp only [xe, foldl_reply_users, ha1]
+  have hxi : xi.w.users = a.x.w.users := by simp only [xi, foldl_reply_users, ha1]
+  have ha2 : a2.x.w.users = a.x.w.users := by simp only [a2, ha1]
+  clear_value a1 xb xe xi a2 sign m' 
+  simp only [ite_acc_users, ite_w_users, Ctx.reply_w, Ctx.panic_w, World.panic_users, ha1, hxb, hxe, hxi, ha2,
+    err482, ite_self]
+  repeat' (first | rfl | assumption | refine ite_eq_of _ _ _ _ (fun _ => ?_) (fun _ => ?_) | split)
+  all_goals first | rfl | assumption | (simp only [ite_acc_users, ite_w_users, Ctx.reply_w, Ctx.panic_w, World.panic_users,
+    ha1, hxb, hxe, hxi, ha2, ite_self]; done) | trace_state
+theorem foldl_acc_users {β : Type} (f : ModeAcc → β → ModeAcc)
+    (h : ∀ a b, (f a b).x.w.users = a.x.w.users) (l : List β) (a : ModeAcc) :
+    (l.foldl f a).x.w.users = a.x.w.users := by
+  induction l generalizing a with
+  | nil => rfl
+  | cons b l ih => exact (ih (f a b)).trans (h a b)
+
+theorem modeGroup_users (cn : Conn) (target : Str) (chum : ChanUserModes) (a : ModeAcc)
+    (g : Str × List Str) : (modeGroup cfg cn target chum a g).x.w.users = a.x.w.users := by
+  unfold modeGroup
+  exact (foldl_acc_users _ (modeChar_users cfg cn target chum) _ _).trans rfl
+
+@[simp] theorem processModeChannel_users (target : Str) (ch : Channel) (modes : List (Str × List Str))
+    (chum : ChanUserModes) : (processModeChannel cfg c target ch modes chum x).w.users = x.w.users := by
+  unfold processModeChannel
+  simp only
+  split
+  · rfl
+  · have h := foldl_acc_users _ (modeGroup_users cfg (x.conn c) target chum) modes
+      { x := x, ch := ch, args := [] }
+    simp only at h
+    split
+    · refine (foldl_users _ ?_ _ _).trans ?_
+      · intro y b; simp
+      · simpa using h
+    · simpa using h
+end modeChan
+
 end Irc.C11
